@@ -457,8 +457,12 @@ func (c07) Witnesses() []*sim.Case {
 		}
 		return append(ops, sim.Op{K: "obs", D: slot, I: []int{1}}, sim.Op{K: "save", D: slot})
 	}
-	fn := func(t string) sim.Op { return sim.Op{K: "fn", S: []sim.Str{sim.Str("text " + t), sim.Str("note " + t)}} }
-	en := func(t string) sim.Op { return sim.Op{K: "en", S: []sim.Str{sim.Str("text " + t), sim.Str("note " + t)}} }
+	fn := func(t string) sim.Op {
+		return sim.Op{K: "fn", S: []sim.Str{sim.Str("text " + t), sim.Str("note " + t)}}
+	}
+	en := func(t string) sim.Op {
+		return sim.Op{K: "en", S: []sim.Str{sim.Str("text " + t), sim.Str("note " + t)}}
+	}
 	li := func(t string, typ string, start int) sim.Op {
 		return sim.Op{K: "li", S: []sim.Str{sim.Str(t), sim.Str(typ), "•"}, I: []int{start, 0, 0}}
 	}
